@@ -36,3 +36,7 @@ func VerifPointerDecode(data []byte) (AddressPayloadPointer, int, error) {
 	n, err := p.decode(data)
 	return p, n, err
 }
+
+func VerifCborArrayInfo(data []byte) (int, uint32, bool) { return cborArrayInfo(data) }
+func VerifCborMapInfo(data []byte) (int, uint32, bool)   { return cborMapInfo(data) }
+func VerifCborArrayHeaderSize(n int) uint32              { return cborArrayHeaderSize(n) }
